@@ -464,8 +464,14 @@ func (w *worker[T, JobType]) stopAndRemoveAllWorkers() {
 }
 
 func (w *worker[T, JobType]) start() error {
-	if w.IsRunning() {
+	// a run is only ever started from the initiated state; a paused or
+	// stopped worker is brought back by Resume or Restart, never by a bind
+	switch w.status.Load() {
+	case initiated:
+	case running:
 		return ErrRunningWorker
+	default:
+		return ErrNotRunningWorker
 	}
 
 	defer w.notifyToPullNextJobs()
